@@ -654,6 +654,61 @@ def _wild_roots(form):
     return w
 
 
+def _parse_cmp(key, form):
+    """(lhs, op, rhs) of a canonical comparison over the operand pair key=(a, b), or None"""
+    body = form[1:-1] if form.startswith('(') and form.endswith(')') else form
+    a, b = key
+    for op in (' <= ', ' < ', ' == ', ' != '):
+        for x, y in ((a, b), (b, a)):
+            if body == x + op + y:
+                return x, op.strip(), y
+    return None
+
+
+def negated_form(key, form):
+    """the canonical form of the negated comparison: (x < y) <-> (y <= x), (x == y) <-> (x != y)"""
+    p = _parse_cmp(key, form)
+    if p is None:
+        return None
+    x, op, y = p
+    if op == '<':
+        return '(%s <= %s)' % (y, x)
+    if op == '<=':
+        return '(%s < %s)' % (y, x)
+    return '(%s %s %s)' % (x, '!=' if op == '==' else '==', y)
+
+
+def cmp_classes(got):
+    """{(operand pair, comparison identified with its negation)} — what two sibling functions must agree on whichever way
+    round their branches are written"""
+    out = set()
+    for key, fs in got.items():
+        for f in fs:
+            n = negated_form(key, f)
+            out.add((key, min(f, n) if n else f))
+    return out
+
+
+def _polarity_unchanged(ctx, fn, key):
+    """the leave-early record (guardpol) of the operand pair exists on the pinned tree and in the current tree and is the
+    same: a comparison that was replaced by its negation together with its branches"""
+    import guardpol
+    fr = guardpol.frozen().get(fn, {})
+    try:
+        cur = guardpol.sites(ctx, fn)
+    except Exception:
+        return False
+    a, b = sorted(key)
+    hit = False
+    for suffix in ('', ' @@ <iteration>', ' @@ <result>'):
+        k = a + ' @@ ' + b + suffix
+        if k in fr or k in cur:
+            if fr.get(k) != cur.get(k):
+                return False
+            hit = True
+    return hit
+
+
 def check_comparisons(ctx, rep, rid, table):
     """table: {fn: [expected canonical comparisons]} — each must still be present; a comparison over the same
     operand pair with a different operator/orientation is a violation; additional comparisons are tolerated."""
@@ -669,6 +724,17 @@ def check_comparisons(ctx, rep, rid, table):
         for form in expected:
             if form in allforms or (form.startswith('re:') and any(re.search(form[3:], f) for f in allforms)):
                 rep.ob(rid, fn, form, True, None, None)
+                continue
+            # the negated comparison with swapped branches (an inverted `if`, a `while c` turned into `loop { if !c { break } }`)
+            # is the same test — accepted only where the guard-polarity record of the pair proves that the branches went along
+            neg_ok = False
+            for key, forms_ in got.items():
+                for f in forms_:
+                    n = negated_form(key, f)
+                    if n is not None and (n == form or (form.startswith('re:') and re.search(form[3:], n))) and _polarity_unchanged(ctx, fn, key):
+                        neg_ok = True
+            if neg_ok:
+                rep.ob(rid, fn, form, True, None, 'present as its negation with the branches exchanged (same leave-early condition as on the pinned tree)')
                 continue
             if not form.startswith('re:') and _wild_roots(form) in wild:
                 # the same fields compared with the same operator, reached through a differently named binding
